@@ -197,14 +197,23 @@ std::string applyS(State& s, const std::string& op, std::istringstream& is) {
         return "ok";
     }
     auto wr = [&](Vector& x) { is >> a >> v; if (a >= 0) x[a] = (Real)v; };
-    if (op == "updQ") { wr(s.updQ()); return "ok"; }
-    if (op == "updU") { wr(s.updU()); return "ok"; }
-    if (op == "updZ") { wr(s.updZ()); return "ok"; }
+    // the same model operation through the two public routes: upd…() reference, or set…(Vector) (odd values)
+    auto wrSet = [&](int which) {
+        is >> a >> v;
+        const bool viaSet = (a >= 0 && v % 2 != 0);
+        if (!viaSet) { Vector& x = which == 0 ? s.updQ() : which == 1 ? s.updU() : s.updZ(); if (a >= 0) x[a] = (Real)v; return; }
+        Vector x = which == 0 ? s.getQ() : which == 1 ? s.getU() : s.getZ();
+        x[a] = (Real)v;
+        if (which == 0) s.setQ(x); else if (which == 1) s.setU(x); else s.setZ(x);
+    };
+    if (op == "updQ") { wrSet(0); return "ok"; }
+    if (op == "updU") { wrSet(1); return "ok"; }
+    if (op == "updZ") { wrSet(2); return "ok"; }
     if (op == "updQsub") { is >> b; wr(s.updQ(sub(b))); return "ok"; }
     if (op == "updUsub") { is >> b; wr(s.updU(sub(b))); return "ok"; }
     if (op == "updZsub") { is >> b; wr(s.updZ(sub(b))); return "ok"; }
-    if (op == "updY") { s.updY(); return "ok"; }
-    if (op == "setTime") { is >> v; s.setTime((Real)v); return "ok"; }
+    if (op == "updY") { static long flip = 0; if (++flip % 2) s.updY(); else { const Vector y = s.getY(); s.setY(y); } return "ok"; }
+    if (op == "setTime") { is >> v; if (v % 2) s.updTime() = (Real)v; else s.setTime((Real)v); return "ok"; }
     if (op == "updUW") { s.updUWeights(); return "ok"; }
     if (op == "updZW") { s.updZWeights(); return "ok"; }
     if (op == "updUWsub") { is >> a; s.updUWeights(sub(a)); return "ok"; }
